@@ -17,10 +17,13 @@ def run(res):
         trusted=TB + ["hand-written model Tools/Reconciler.v of /repo/rib/reconciler/reconcile.go (diff over RIBContents, ReconcileOps, id assignment), tied to the code by the correspondence on every run: "
                       "the nine lists as sets of (instance, kind, entry), the id counter, and the real RIB's answer to each operation in the order sent plus its final tables and counters",
                       "harness vh-c15: AFTOperation -> model entry reader (checked lossless per operation by rebuilding the protobuf), closure normalisation of generated / shrunk cases"],
-        assumptions=["both RIBs are local rib.RIB values (reconciler.LocalRIB) built through AddEntry with reference checks on; the gRIBI transport (RemoteRIB, client) is outside this property",
+        assumptions=["both RIBs are rib.RIB values built through AddEntry with reference checks on; three quarters of the cases hand them to the reconciler as reconciler.LocalRIB, one quarter (every profile) put the target, "
+                     "the intended side or both behind a reconciler.RemoteRIB: the side's rib.RIB is served by a real server (server.NewFake + InjectRIB) in the harness process and read through client.Get / rib.FromGetResponses, "
+                     "over bufconn (NewRemoteRIBWithStub) or loopback TLS (NewRemoteRIB); the operations are sent to the target's rib.RIB directly in both modes (the Modify path is C13/C14's); oracle and correspondence are the same in both modes: "
+                     "a network instance without entries is invisible through Get, which changes nothing (diff treats a missing instance and an empty one alike: no operation in either case)",
                      "Reconcile is called with explicitReplace unset (the only way the public API calls diff): replaces are implicit ADDs",
                      "Go's map iteration order makes the order inside each list and the id of each operation vary: the correspondence compares the lists as sets and the theorems hold for the canonical order; "
                      "the id clauses are checked on the implementation by the oracle (sorted ids = base+1..base+k, counter = base+k)",
                      "entry fields outside the modelled ones (pop-top-label etc., C07) are not generated",
-                     "model-free oracle: every operation answered oks=[its id], nothing failed or held; RIBContents equal on both sides in every instance of the target; equal RIBs give no operations"],
+                     "model-free oracle: every operation answered oks=[its id], nothing failed or held; RIBContents equal on both sides in every instance of the target; equal RIBs give no operations; a second Reconcile after a successful reconciliation (the target read anew, through Get in remote mode) gives no operations"],
         vh_bin="vh-c15", shrink_key="ents")
